@@ -89,7 +89,8 @@ func wireSpace(t *rm.Type, o wireOpts, fn func(w []byte, desc string) bool) {
 								continue
 							}
 							m[j] = s2
-							if !emit(m, fmt.Sprintf("%s bytes %d:=%02x,%d:=%02x", desc, i, s, j, s2)) {
+							// two-byte substitutions are pairwise distinct by construction: not entered into the de-duplication set
+							if !fn(m, fmt.Sprintf("%s bytes %d:=%02x,%d:=%02x", desc, i, s, j, s2)) {
 								return false
 							}
 						}
